@@ -1970,6 +1970,106 @@ def dispatch_source_digits(Ms, dc):
     return ds
 
 
+# ----------------------------------------------------------------------------- initialize_backend in fresh processes
+INIT_SCRIPT = r"""
+import sys, json, warnings, threading, traceback
+sys.path.insert(0, sys.argv[1])
+out = {"ok": True}
+with warnings.catch_warnings(record=True) as w:
+    warnings.simplefilter("always")
+    try:
+        import tensorly as tl
+        import tensorly.tenalg as ta
+    except BaseException as e:
+        out["ok"] = False
+        out["error"] = repr(e)[:100]
+        out["where"] = [f.filename for f in traceback.extract_tb(e.__traceback__)][-3:]
+    msgs = [str(x.message) for x in w]
+out["warn_b"] = any(m.startswith("TENSORLY_BACKEND should be") for m in msgs)
+out["warn_t"] = any(m.startswith("TENSORLY_TENALG_BACKEND should be") for m in msgs)
+if out["ok"]:
+    box = []
+    th = threading.Thread(target=lambda: box.append((tl.get_backend(), ta.get_backend())))
+    th.start(); th.join()
+    out.update(qb_main=tl.get_backend(), qt_main=ta.get_backend(), qb_fresh=box[0][0], qt_fresh=box[0][1],
+               db=tl.backend._default_backend, dt=ta._default_backend)
+print("C17INIT" + json.dumps(out))
+"""
+INIT_ENVS = [(None, None), ("numpy", "einsum"), ("nosuch", "nosuch"), ("Numpy", "numpy"), ("pytorch", None), (None, "core")]
+INIT_CODES = ({"numpy": 0, "pytorch": 3, "nosuch": 4, "Numpy": 5}, {"core": 0, "einsum": 1, "nosuch": 4, "numpy": 5})
+
+
+def init_launch():
+    """start `import tensorly` in fresh processes with the environment variables of initialize_backend set"""
+    import subprocess
+    procs = []
+    for (eb, et) in INIT_ENVS:
+        env = {k: v for k, v in os.environ.items() if k not in ("TENSORLY_BACKEND", "TENSORLY_TENALG_BACKEND")}
+        if eb is not None:
+            env["TENSORLY_BACKEND"] = eb
+        if et is not None:
+            env["TENSORLY_TENALG_BACKEND"] = et
+        try:
+            p = subprocess.Popen([sys.executable, "-c", INIT_SCRIPT, C.REPO], env=env, stdout=subprocess.PIPE,
+                                 stderr=subprocess.DEVNULL, text=True)
+        except Exception:  # noqa
+            p = None
+        procs.append(((eb, et), p))
+    return procs
+
+
+def init_collect(procs):
+    """[(digits, description, predicate failure | None)] ; a process that does not answer in time is skipped"""
+    import json
+    out, skipped = [], 0
+    for (eb, et), p in procs:
+        if p is None:
+            skipped += 1
+            continue
+        try:
+            so, _ = p.communicate(timeout=240)
+        except Exception:  # noqa
+            p.kill()
+            skipped += 1
+            continue
+        line = [x for x in so.splitlines() if x.startswith("C17INIT")]
+        if not line:
+            skipped += 1
+            continue
+        r = json.loads(line[0][7:])
+        failed_in_tenalg = (not r["ok"]) and any("tenalg" in f for f in r.get("where", [])[-2:])
+        for m, (req, warn) in enumerate(((eb, r["warn_b"]), (et, r["warn_t"]))):
+            codes = INIT_CODES[m]
+            if not r["ok"] and m == 1 and not failed_in_tenalg:
+                continue                     # the import died in tensorly.backend before tensorly.tenalg was initialised
+            if not r["ok"] and m == 0 and failed_in_tenalg:
+                continue                     # tensorly.backend had been initialised, but nothing could be observed
+            env_d = 0 if req is None else 1 + codes.get(req, 6)
+            if r["ok"]:
+                q_main, q_fresh, dn = (r["qt_main"], r["qt_fresh"], r["dt"]) if m else (r["qb_main"], r["qb_fresh"], r["db"])
+                ds = [8, m, env_d, int(warn), codes.get(q_main, 63), codes.get(q_fresh, 63), codes.get(dn, 63)]
+            else:
+                ds = [8, m, env_d, 2 + int(warn), 0, 0, 0]
+            # predicate (C17_initialize_ok / _fails_iff): listed and loadable -> that name everywhere, no warning; not
+            # listed -> the built-in default everywhere + warning; listed but not loadable -> the import fails
+            listed = [["numpy", "pytorch", "tensorflow", "cupy", "jax", "paddle"], ["core", "einsum"]][m]
+            loadable = [["numpy"], ["core", "einsum"]][m]
+            default = ["numpy", "core"][m]
+            want = req if (req in listed) else default
+            fail = None
+            if want in loadable:
+                exp = (want, want, want, req is not None and req not in listed)
+                got = (q_main, q_fresh, dn, bool(warn)) if r["ok"] else ("import failed: " + r.get("error", ""),)
+                if got != exp:
+                    fail = ("C17_initialize_ok", f"{['TENSORLY_BACKEND', 'TENSORLY_TENALG_BACKEND'][m]}={req!r}: expected (get_backend() in the importing "
+                            f"thread, in a new thread, _default_backend, warned) = {exp}, observed {got}")
+            elif r["ok"]:
+                fail = ("C17_initialize_fails_iff", f"{['TENSORLY_BACKEND', 'TENSORLY_TENALG_BACKEND'][m]}={req!r} is listed but cannot be imported, yet "
+                        f"`import tensorly` succeeded with get_backend() = {q_main!r}")
+            out.append((ds, {"manager": ["tensorly.backend", "tensorly.tenalg"][m], "env": req, "result": r}, fail))
+    return out, skipped
+
+
 # ----------------------------------------------------------------------------- pool jobs
 def _pool_job(job):
     """executed in a pool process (in its main thread): drives the histories and digests the results there:
@@ -2138,6 +2238,7 @@ def run(chk):
     rng = random.Random(chk.seed)
     chk.build_proofs()
     C.reset_backends()
+    init_procs = init_launch()           # fresh processes importing tensorly under TENSORLY_BACKEND / TENSORLY_TENALG_BACKEND
     t0 = time.time()
     groups = make_groups(chk.tier, rng)
     for (mode, main_actor, nthreads, h) in corpus_histories():
@@ -2250,6 +2351,21 @@ def run(chk):
     except Exception as e:  # noqa
         chk.cov["dispatch_source_tie"] = f"BROKEN TIE: extraction failed ({e!r})"
         chk.notes.append(f"dispatch expressions: BROKEN TIE - extraction failed ({e!r})")
+    # initialize_backend: the fresh processes launched at the start
+    init_ids = {}
+    try:
+        inits, skipped = init_collect(init_procs)
+        chk.cov["initialize_backend_processes_skipped"] = skipped
+        for (ds, desc, fail) in inits:
+            init_ids[len(cases)] = desc
+            cases.append(f"({len(cases)}, {pack(ds)})")
+            meta.append(None)
+            chk.count(key=("initialize", desc["manager"], desc["env"]), nontrivial=desc["env"] is not None)
+            chk.hist("group", ("tenalg:" if desc["manager"].endswith("tenalg") else "backend:") + "initialize-backend-env")
+            if fail is not None:
+                chk.finding("import tensorly (initialize_backend)", {"mode": 10, "manager": desc["manager"], "env": desc["env"]}, fail[1], fail[0])
+    except Exception as e:  # noqa
+        chk.notes.append(f"initialize_backend processes: not evaluated ({e!r})")
     t1 = time.time()
     failing, n_eval, broken = C.run_case_shards("C17", HEADER, "case", cases, shard=2500, timeout=900)
     # a shard killed by the shell timeout (overloaded machine) is "not evaluated", never an alarm: its cases are
@@ -2302,11 +2418,17 @@ def run(chk):
                        "400 (thorough 1500) random histories over BOTH managers with contexts driven through cm.__enter__ / cm.__exit__, left in any order across "
                        "the managers. Dispatch source: the look-up expressions of the dispatch closure, current_backend, get_backend, the attribute descriptor, what "
                        "use_dynamic_dispatch installs and the names bound at import are extracted from the current source (ast) and checked in Coq against the model's "
-                       "parameters. Non-trivial = at least two threads act and a context is entered; distinct key = (mode, "
+                       "parameters. INITIALIZE: `import tensorly` in 6 fresh processes under TENSORLY_BACKEND / TENSORLY_TENALG_BACKEND in {unset, default name, other loadable name, "
+                       "unlisted name, wrong case, listed-but-not-importable}: outcome (imported / warned / import failed), get_backend() in the importing thread and in a new "
+                       "thread, _default_backend compared with the model's `initialize`. Non-trivial = at least two threads act and a context is entered; distinct key = (mode, "
                        "main-thread role, history). At most 40 disagreeing cases per shard of 2500 are listed")
     for b in broken:
         chk.broken.append({"what": "correspondence corr:C17 shard not evaluated", "detail": b})
     for i in sorted(failing):
+        if i in init_ids:
+            chk.disagreement("corr:C17 initialize_backend (Model/BackendDispatch.v `initialize` vs `import tensorly` in a fresh process under "
+                             "TENSORLY_BACKEND / TENSORLY_TENALG_BACKEND)", {"mode": 10, **init_ids[i]})
+            continue
         if i == dsrc_id:
             chk.disagreement("corr:C17 dispatch source (the look-up expressions of the dispatch closure / descriptor / current_backend / get_backend, what "
                              "use_dynamic_dispatch installs, or the names bound at import differ from Model/BackendDispatch.v's parameters)",
@@ -2350,6 +2472,15 @@ def replay(payload):
         print("replay file names a broken theorem/correspondence, not an input:", payload.get("theorem_or_correspondence"))
         return 1
     inp = payload["inputs"]
+    if int(inp["mode"]) == 10:
+        global INIT_ENVS
+        m = 1 if str(inp["manager"]).endswith("tenalg") else 0
+        INIT_ENVS = [(None, inp["env"]) if m else (inp["env"], None)]
+        inits, skipped = init_collect(init_launch())
+        fails = [f for (_, d, f) in inits if f is not None and d["manager"] == inp["manager"]]
+        for f in fails:
+            print("replay:", f)
+        return 1 if fails else 0
     if int(inp["mode"]) in (8, 9):
         m = int(inp["mode"]) - 8
         h = dhist_from_json(inp["history"])
